@@ -126,7 +126,7 @@ int main(int argc, char **argv)
 	alarm(0);
 	fprintf(stderr, "finish() = %d, blocks written %d of %d, do_block calls %d\n",
 		ret, writes, nblocks, blocks_seen);
-	if (ret == 0) {
+	if (ret == 0 && blocks_seen > fail_index) {
 		fprintf(stderr, "SWALLOWED: a worker reported SQFS_ERROR_COMPRESSOR "
 			"but finish() returned success\n");
 		return 1;
